@@ -100,15 +100,21 @@ def check_program(args):
         meta.append(("run", inp, lens))
         res["runs"] += 1
     text = "\n".join(cmds) + "\n"
-    rc1, cl, cerr = cdrv.run_c(wd, text, timeout=120)
-    rc2, ml, merr = cdrv.run_model(export.text_dfa(m), cfg_text, text, timeout=300)
+    rc1, cl, cerr = cdrv.run_c(wd, text, timeout=120 + len(cmds) // 1000)
+    rc2, ml, merr = cdrv.run_model(export.text_dfa(m), cfg_text, text, timeout=300 + len(cmds) // 500)
     shutil.rmtree(wd, ignore_errors=True)
     if rc2 != 0:
         res["build"] = "model runner failed: " + merr[-300:]
         return res
     nstep = len([x for x in meta if x[0] in ("step", "stepn")])
     res["steps"] = nstep
-    if rc1 != 0:
+    if rc1 == 124 and any(l.startswith("UNDEF SPIN") for l in ml[max(0, len(cl) - 5):len(cl) + 3000]):
+        cl = cl[:-1]      # (the output of the killed binary ends in the middle of a line, and what it had buffered is lost)
+        # the binary does not return from a step in which the model of the machine runs out of fuel as well: the machine itself
+        # goes round without consuming (a forced state / data context reaching a known C04 shape); C and machine agree
+        res["spin_agreed"] = {"at_line": len(cl)}
+        ml = ml[:len(cl)]
+    elif rc1 != 0:
         res["diffs"].append({"kind": "c-binary-exit", "rc": rc1, "stderr": cerr[-400:], "lines": len(cl)})
     # single steps: one line each; runs: variable number of lines -> compare steps positionally, runs as blocks
     c_steps, m_steps = cl[:nstep], ml[:nstep]
@@ -190,6 +196,7 @@ def run(ctx):
         "states": total_states, "transitions": total_steps, "traces_validated_against_impl": total_steps + sum(r["runs"] for r in results),
         "programs_x_option_sets": len(jobs), "single_steps_compared": total_steps, "multi_byte_runs": sum(r["runs"] for r in results),
         "model_undefined_steps_skipped": sum(r["undef"] for r in results),
+        "binaries_not_returning_where_the_machine_spins": sum(1 for r in results if r.get("spin_agreed")),
         "c_build_failures_skipped": len(build_fail), "first_build_failure": (build_fail[0]["build"][-300:] if build_fail else None),
         "not_compiled": dict(skipped), "exhaustive": False,
         "rule": "per program x option set: every state index x every byte 0..255 (and end-of-input with -feof-support) x data contexts (zeros, full buffers/boundary ints, random), forced-state single step in the gcc-built binary vs extracted CSkel.Run; plus random multi-byte chunked runs",
